@@ -438,7 +438,8 @@ def judge_spec(spec, impl):
         got = impl.split(";")
         if len(want) != len(got):
             return False
-        return all(w == "-" or w == g for w, g in zip(want, got))
+        # a step ending in `*` is a prefix (the unconstrained tail of a step)
+        return all(w == "-" or w == g or (w.endswith("*") and g.startswith(w[:-1])) for w, g in zip(want, got))
     if spec.startswith("not "):
         return not judge_spec(spec[4:], impl)
     raise ValueError("unknown spec verdict: " + spec)
